@@ -99,7 +99,7 @@ vars    == <<cvars, avars>>
 allvars == <<vars, last>>
 
 IdleP == [st |-> "idle", has |-> FALSE, floor |-> Zero, lo |-> Zero]
-NoOut == [done |-> FALSE, id |-> Zero]
+NoOut == [done |-> FALSE, id |-> Zero, rd |-> FALSE, tm |-> 0, sp |-> 0]
 Quiet == \A t \in DOMAIN pend : pend[t].st = "idle"
 
 (* ============================= CONTRACT =============================== *)
@@ -170,24 +170,33 @@ HardF(now, tm, st) ==
 
 Lin(t) ==
   /\ pend[t].st = "called" /\ ~out[t].done
-  /\ CASE cfg.kind = "hard" ->
+  /\ CASE cfg.kind = "hard" /\ Deviation = "nomutex" /\ ~out[t].rd ->
+            (* without the mutex: the fields are read ... *)
+            /\ out' = [out EXCEPT ![t] = [@ EXCEPT !.rd = TRUE, !.tm = time, !.sp = step]]
+            /\ UNCHANGED <<time, step>>
+       [] cfg.kind = "hard" /\ Deviation = "nomutex" /\ out[t].rd ->
+            (* ... and written back in a second step *)
+            LET n == HardF(Now, out[t].tm, out[t].sp)
+            IN /\ time' = n.time /\ step' = n.step
+               /\ out' = [out EXCEPT ![t] = [NoOut EXCEPT !.done = TRUE, !.id = ToLimbs(IdInt(cfg, n.time, n.step))]]
+       [] cfg.kind = "hard" /\ Deviation # "nomutex" ->
             LET n == HardF(Now, time, step)
             IN /\ time' = n.time /\ step' = n.step
-               /\ out' = [out EXCEPT ![t] = [done |-> TRUE, id |-> ToLimbs(IdInt(cfg, n.time, n.step))]]
+               /\ out' = [out EXCEPT ![t] = [NoOut EXCEPT !.done = TRUE, !.id = ToLimbs(IdInt(cfg, n.time, n.step))]]
        [] cfg.kind = "mono" ->
             (* same millisecond: next step; on wrap the code spins until the clock moves *)
             IF Now = time
             THEN /\ (step + 1) % M # 0
                  /\ step' = step + 1 /\ time' = time
-                 /\ out' = [out EXCEPT ![t] = [done |-> TRUE, id |-> ToLimbs(IdInt(cfg, time, step + 1))]]
+                 /\ out' = [out EXCEPT ![t] = [NoOut EXCEPT !.done = TRUE, !.id = ToLimbs(IdInt(cfg, time, step + 1))]]
             ELSE /\ step' = 0 /\ time' = Now
-                 /\ out' = [out EXCEPT ![t] = [done |-> TRUE, id |-> ToLimbs(IdInt(cfg, Now, 0))]]
+                 /\ out' = [out EXCEPT ![t] = [NoOut EXCEPT !.done = TRUE, !.id = ToLimbs(IdInt(cfg, Now, 0))]]
        [] cfg.kind = "nano" ->
             LET v == IF (IF Deviation = "nanoge" THEN Now >= time ELSE Now > time) THEN Now ELSE time + 1
             IN /\ time' = v /\ step' = 0
-               /\ out' = [out EXCEPT ![t] = [done |-> TRUE, id |-> ToLimbs(v)]]
+               /\ out' = [out EXCEPT ![t] = [NoOut EXCEPT !.done = TRUE, !.id = ToLimbs(v)]]
        [] OTHER -> FALSE
-  /\ calls' = calls + 1
+  /\ calls' = IF out'[t].done THEN calls + 1 ELSE calls
   /\ UNCHANGED cvars
 
 Tick(c) ==
